@@ -29,6 +29,14 @@ Readings adopted:
   * "alive" at hand-out: poll() inside the locked section of _borrow says so; a process may of course die afterwards.
   * "message boundary": nothing unread in either direction and the server waits for the first byte of a request.
   * join(timeout=5) in close() may return before the reaper has finished: the model lets close() proceed either way.
+
+Findings on the unrepaired source (each replayed against the real code, keys as reported by ctx.violation;
+coq/refuted/R_C32.v has the model-level witnesses):
+  max-idle-zero-keeps-one                              max_idle=0: evict finds nothing, the append still happens (idle_count == 1)
+  dirty-reuse-after-unary-callback-raise               on_log raises during a unary call: response left unread, worker pooled
+  dirty-reuse-after-stream-close-callback-raise        tick interrupted, then close()'s drain interrupted: _closed is True, output not drained
+  dirty-reuse-after-second-stream-init-callback-raise  second stream of a borrow: init interrupted, _last_stream_session is the stale closed one
+Candidate repairs: fixes/C32-max-idle-zero.diff, fixes/C32-interrupted-call-taints-worker.diff (the model's cfg_fixed).
 """
 from __future__ import annotations
 
@@ -381,11 +389,11 @@ def run(ctx: Any) -> None:
         "process deaths and stutters; distinct by (max_idle, timeout, threads, schedule); non-trivial = at least one worker was spawned"
     )
     scenarios: list[tuple[str, int, int, list[Any], list[Any]]] = list(targeted())
-    n_random = 400 if quick else 6000
+    n_random = 250 if quick else 6000
     for k in range(n_random):
         nb = ctx.rng.choice([1, 2, 2, 3, 3])
         specs = gen_threads(ctx.rng, nb)
-        style = "sequential" if k % 3 == 0 else "random"
+        style = "sequential" if k % 2 == 0 else "random"
         scenarios.append((style, ctx.rng.choice([0, 1, 1, 2, 2]), ctx.rng.choice([1, 2, 3]), specs, gen_schedule(ctx.rng, specs, style)))
 
     # all interleavings of two borrowers (bounded: every order of their 7 + 7 steps), sampled in the quick tier
@@ -396,7 +404,7 @@ def run(ctx: Any) -> None:
         for pos in itertools.combinations(range(14), 7):
             sch2 = [("thr", 0 if k in pos else 1) for k in range(14)]
             inter.append(("interleaving", mi, 3, [("B", 0, True, [], []), ("B", 0, True, [], [])], sch2 + [("thr", 0), ("thr", 1)]))
-    scenarios += ctx.rng.sample(inter, 150) if quick else inter
+    scenarios += ctx.rng.sample(inter, 100) if quick else inter
     ctx.exhaustive = False
 
     cases: list[tuple[str, str]] = []
